@@ -91,6 +91,34 @@ theorem linesAux_flatten (l acc : Bytes) : (linesAux l acc).flatten = acc.revers
 theorem linesOf_flatten (l : Bytes) : (linesOf l).flatten = l := by
   simp [linesOf, linesAux_flatten]
 
+theorem linesAux_unfold (l acc : Bytes) :
+    linesAux l acc =
+      if (acc.reverse ++ l).isEmpty then []
+      else (acc.reverse ++ lineOf l) :: linesAux (l.drop (lineOf l).length) [] := by
+  induction l generalizing acc with
+  | nil =>
+    cases acc with
+    | nil => simp [linesAux]
+    | cons a as => simp [linesAux, lineOf]
+  | cons c cs ih =>
+    by_cases hc : c = 10
+    · subst hc
+      simp [linesAux, lineOf]
+    · rw [linesAux]
+      simp only [hc, if_false]
+      rw [ih]
+      simp [lineOf, hc]
+
+/-- reading line by line: the lines of `l` are its first line followed by the lines of the rest -/
+theorem linesOf_unfold (l : Bytes) (h : l ≠ []) :
+    linesOf l = lineOf l :: linesOf (l.drop (lineOf l).length) := by
+  unfold linesOf
+  rw [linesAux_unfold]
+  have : l.isEmpty = false := by cases l <;> simp_all
+  simp [this]
+
+theorem linesOf_nil : linesOf [] = [] := by simp [linesOf, linesAux]
+
 /-! ### the simulation relation between `_MemoryFile` and the reference -/
 
 /-- the invariant: the shared BytesIO holds the file's bytes, `self.pos` is the position
@@ -183,13 +211,64 @@ theorem foldl_write_append (fl : Flags) (ha : fl.appending = true) (ls : List By
 
 /-! ### one call: `_MemoryFile` against the reference -/
 
-theorem dev_open {fl : Flags} {r : IoState} {op : Op} (hne : op ≠ .close)
-    (hd : deviates fl r op = false) : r.closed = false := by
-  cases hc : r.closed with
-  | false => rfl
-  | true =>
-    exfalso
-    cases op <;> simp [deviates, devClass, hc] at hd hne
+/-- iteration (`list(f)` = `__next__` until StopIteration) reads the remaining lines and leaves
+the position at the end of what was read -/
+theorem iterLoop_spec (fl : Flags) (hr : fl.reading = true) (fuel : Nat) (b : Bytes) (bp p : Nat)
+    (acc : List Bytes) (hf : (b.drop p).length < fuel) :
+    ∃ bp', MemFile.iterLoop fl fuel ⟨⟨b, bp⟩, p, false⟩ acc =
+      (⟨⟨b, bp'⟩, p + (b.drop p).length, false⟩, .lines (acc.reverse ++ linesOf (b.drop p))) := by
+  induction fuel generalizing bp p acc with
+  | zero => omega
+  | succ fuel ih =>
+    unfold MemFile.iterLoop
+    cases hl : lineOf (List.drop p b) with
+    | nil =>
+      have hnil : List.drop p b = [] := by
+        by_cases h : List.drop p b = []
+        · exact h
+        · exact absurd hl (lineOf_ne_nil _ h)
+      refine ⟨p, ?_⟩
+      simp [MemFile.nextStep, hr, MemFile.seekLock, Bio.readline, Bio.seekSet, limit, Out.isErr, hnil,
+        linesOf_nil, lineOf]
+    | cons x xs =>
+      have hne : List.drop p b ≠ [] := by
+        intro h; rw [h] at hl; simp [lineOf] at hl
+      have hlen := lineOf_length_le (List.drop p b)
+      rw [hl] at hlen
+      have hdrop : List.drop (p + (x :: xs).length) b = (List.drop p b).drop (x :: xs).length := by
+        rw [List.drop_drop]
+      have hf' : (List.drop (p + (x :: xs).length) b).length < fuel := by
+        rw [hdrop, List.length_drop]
+        simp only [List.length_cons] at hlen hf ⊢
+        omega
+      obtain ⟨bp', hih⟩ := ih (p + (x :: xs).length) (p + (x :: xs).length) ((x :: xs) :: acc) hf'
+      refine ⟨bp', ?_⟩
+      simp only [MemFile.nextStep, hr, MemFile.seekLock, Bio.readline, Bio.seekSet, limit, hl, Out.isErr]
+      simp only [Bool.not_true, Bool.false_eq_true, if_false, List.isEmpty_cons]
+      rw [hih]
+      have hun := linesOf_unfold (List.drop p b) hne
+      rw [hl] at hun
+      rw [hun, hdrop]
+      simp only [List.length_drop, List.length_cons] at hlen ⊢
+      refine Prod.ext ?_ ?_
+      · simp only [MemState.mk.injEq, and_true, true_and]
+        omega
+      · simp
+
+theorem truncate_body (b : Bytes) (p z : Nat) :
+    let b1 : Bio := ⟨b.take z, p⟩
+    let b2 := b1.seekEnd
+    let b3 := if b2.pos < z then b2.write (zeros (z - b2.pos)) else b2
+    (b3.seekSet p).bytes = resize b z ∧ (b3.seekSet p).pos = p := by
+  by_cases hlen : b.length < z
+  · have hle : b.length ≤ z := by omega
+    have htake : List.take z b = b := List.take_of_length_le hle
+    have hne : ¬ (z - b.length = 0) := by omega
+    simp [Bio.seekEnd, Bio.seekSet, Bio.write, htake, hlen, zeros_isEmpty, hne, writeAt_end,
+      resize_ge b z hle]
+  · have hle : z ≤ b.length := by omega
+    have hl2 : (List.take z b).length = z := by simp; omega
+    simp [Bio.seekEnd, Bio.seekSet, hl2, resize_le b z hle]
 
 theorem step_refines (fl : Flags) (m : MemState) (r : IoState) (op : Op)
     (hR : R m r) (hd : deviates fl r op = false) :
@@ -200,118 +279,120 @@ theorem step_refines (fl : Flags) (m : MemState) (r : IoState) (op : Op)
   obtain ⟨h1, h2, h3⟩ := hR
   simp only at h1 h2 h3
   subst h1 h2 h3
-  by_cases hcl : op = .close
-  · subst hcl
-    cases c <;> simp [MemFile.step, IoRef.step, IoRef.stepOpen, IoRef.stepClosed, IoRef.isReadline0, R]
-  · have hc := dev_open hcl hd
-    simp only at hc
-    subst hc
+  by_cases h0 : IoRef.isReadline0 op = true
+  · -- readline(0): the reference never touches the file; the excluded class is closed/unreadable
     cases op with
-    | close => exact absurd rfl hcl
-    | tell => simp [MemFile.step, IoRef.step, IoRef.stepOpen, IoRef.stepClosed, IoRef.isReadline0, R]
-    | flush => simp [MemFile.step, IoRef.step, IoRef.stepOpen, IoRef.stepClosed, IoRef.isReadline0, R]
+    | readline n =>
+      cases n with
+      | none => simp [IoRef.isReadline0] at h0
+      | some z =>
+        simp [IoRef.isReadline0] at h0
+        subst h0
+        have hcr : c = false ∧ fl.reading = true := by
+          cases c <;> cases hr : fl.reading <;> simp [deviates, devClass, hr] at hd ⊢
+        obtain ⟨hc, hr⟩ := hcr
+        subst hc
+        simp [MemFile.step, MemFile.stepOpen, IoRef.step, IoRef.isReadline0, R, hr, MemFile.seekLock,
+          Bio.readline, Bio.seekSet, Out.isErr, limit]
+    | _ => simp [IoRef.isReadline0] at h0
+  · cases c with
+    | true =>
+      -- closed: everything but close() is rejected on both sides
+      cases op <;> simp_all [MemFile.step, MemFile.stepClosed, IoRef.step, IoRef.stepClosed, R]
+    | false =>
+    cases op with
+    | close => simp [MemFile.step, MemFile.stepOpen, IoRef.step, IoRef.stepOpen, IoRef.isReadline0, R]
+    | tell => simp [MemFile.step, MemFile.stepOpen, IoRef.step, IoRef.stepOpen, IoRef.isReadline0, R]
+    | flush => simp [MemFile.step, MemFile.stepOpen, IoRef.step, IoRef.stepOpen, IoRef.isReadline0, R]
     | read n =>
       cases hr : fl.reading <;>
-        simp [MemFile.step, IoRef.step, IoRef.stepOpen, IoRef.stepClosed, IoRef.isReadline0, R, hr, MemFile.seekLock, Bio.read, Bio.seekSet,
-          IoRef.readN, Out.isErr]
+        simp [MemFile.step, MemFile.stepOpen, IoRef.step, IoRef.stepOpen, IoRef.isReadline0, R, hr,
+          MemFile.seekLock, Bio.read, Bio.seekSet, IoRef.readN, Out.isErr]
     | readall =>
       cases hr : fl.reading <;>
-        simp [MemFile.step, IoRef.step, IoRef.stepOpen, IoRef.stepClosed, IoRef.isReadline0, R, hr, MemFile.seekLock, Bio.read, Bio.seekSet,
-          IoRef.readN, Out.isErr]
+        simp [MemFile.step, MemFile.stepOpen, IoRef.step, IoRef.stepOpen, IoRef.isReadline0, R, hr,
+          MemFile.seekLock, Bio.read, Bio.seekSet, IoRef.readN, Out.isErr]
     | readinto k =>
       cases hr : fl.reading <;>
-        simp [MemFile.step, IoRef.step, IoRef.stepOpen, IoRef.stepClosed, IoRef.isReadline0, R, hr, MemFile.seekLock, Bio.read, Bio.seekSet,
-          IoRef.readN, Out.isErr]
+        simp [MemFile.step, MemFile.stepOpen, IoRef.step, IoRef.stepOpen, IoRef.isReadline0, R, hr,
+          MemFile.seekLock, Bio.read, Bio.seekSet, IoRef.readN, Out.isErr]
     | readlines =>
       cases hr : fl.reading <;>
-        simp [MemFile.step, IoRef.step, IoRef.stepOpen, IoRef.stepClosed, IoRef.isReadline0, R, hr, MemFile.seekLock, Bio.readlines, Bio.seekSet,
-          IoRef.readLines, Out.isErr]
+        simp [MemFile.step, MemFile.stepOpen, IoRef.step, IoRef.stepOpen, IoRef.isReadline0, R, hr,
+          MemFile.seekLock, Bio.readlines, Bio.seekSet, IoRef.readLines, Out.isErr]
     | readline n =>
-      cases hr : fl.reading
-      · -- not readable: only readline(0) succeeds in the reference, and that class is excluded
-        by_cases h0 : IoRef.isReadline0 (.readline n) = true
-        · exfalso
-          cases n with
-          | none => simp [IoRef.isReadline0] at h0
-          | some z =>
-            simp [IoRef.isReadline0] at h0
-            simp [deviates, devClass, hr, h0] at hd
-        · simp [MemFile.step, IoRef.step, IoRef.stepOpen, IoRef.stepClosed, h0, R, hr]
-      · by_cases h0 : IoRef.isReadline0 (.readline n) = true
-        · cases n with
-          | none => simp [IoRef.isReadline0] at h0
-          | some z =>
-            simp [IoRef.isReadline0] at h0
-            subst h0
-            simp [MemFile.step, IoRef.step, IoRef.stepOpen, IoRef.stepClosed, IoRef.isReadline0, R, hr, MemFile.seekLock, Bio.readline,
-              Bio.seekSet, Out.isErr, limit]
-        · simp [MemFile.step, IoRef.step, IoRef.stepOpen, IoRef.stepClosed, h0, R, hr, MemFile.seekLock, Bio.readline, Bio.seekSet,
-            IoRef.readLine, Out.isErr]
+      cases hr : fl.reading <;>
+        simp [MemFile.step, MemFile.stepOpen, IoRef.step, IoRef.stepOpen, h0, R, hr, MemFile.seekLock,
+          Bio.readline, Bio.seekSet, IoRef.readLine, Out.isErr]
     | next =>
-      have hr : fl.reading = true := by
-        cases h : fl.reading <;> simp [deviates, devClass, h] at hd ⊢
-      cases hl : lineOf (List.drop p b) with
-      | nil =>
-        simp [MemFile.step, IoRef.step, IoRef.stepOpen, IoRef.stepClosed, IoRef.isReadline0, hr,
-          MemFile.seekLock, Bio.readline, Bio.seekSet, IoRef.readLine, limit, hl, Out.isErr, R]
-      | cons x xs =>
-        simp [MemFile.step, IoRef.step, IoRef.stepOpen, IoRef.stepClosed, IoRef.isReadline0, hr,
-          MemFile.seekLock, Bio.readline, Bio.seekSet, IoRef.readLine, limit, hl, Out.isErr, R]
+      cases hr : fl.reading
+      · simp [MemFile.step, MemFile.stepOpen, MemFile.nextStep, IoRef.step, IoRef.stepOpen,
+          IoRef.isReadline0, R, hr]
+      · cases hl : lineOf (List.drop p b) with
+        | nil =>
+          simp [MemFile.step, MemFile.stepOpen, MemFile.nextStep, IoRef.step, IoRef.stepOpen,
+            IoRef.isReadline0, hr, MemFile.seekLock, Bio.readline, Bio.seekSet, IoRef.readLine, limit, hl,
+            Out.isErr, R]
+        | cons x xs =>
+          simp [MemFile.step, MemFile.stepOpen, MemFile.nextStep, IoRef.step, IoRef.stepOpen,
+            IoRef.isReadline0, hr, MemFile.seekLock, Bio.readline, Bio.seekSet, IoRef.readLine, limit, hl,
+            Out.isErr, R]
     | iter =>
-      have hr : fl.reading = true := by
-        cases h : fl.reading <;> simp [deviates, devClass, h] at hd ⊢
-      have hp : b.length ≤ p := by
-        simp [deviates, devClass, hr] at hd; omega
-      have hdrop : List.drop p b = [] := List.drop_eq_nil_of_le hp
-      simp [MemFile.step, IoRef.step, IoRef.stepOpen, IoRef.stepClosed, IoRef.isReadline0, R, hr, Bio.readlines, Bio.seekSet,
-        IoRef.readLines, hdrop]
+      cases hr : fl.reading
+      · -- the first __next__ raises; list(f) propagates it
+        simp [MemFile.step, MemFile.stepOpen, MemFile.iterLoop, MemFile.nextStep, IoRef.step,
+          IoRef.stepOpen, IoRef.isReadline0, R, hr]
+      · obtain ⟨bp', hspec⟩ := iterLoop_spec fl hr (b.length - p + 1) b bp p []
+          (by simp only [List.length_drop]; omega)
+        simp only [MemFile.step, MemFile.stepOpen, Bool.false_eq_true, if_false]
+        rw [hspec]
+        simp [IoRef.step, IoRef.stepOpen, IoRef.isReadline0, R, hr, IoRef.readLines]
     | seek off whence =>
       match whence with
       | 0 =>
         by_cases h : off < 0 <;>
-          simp [MemFile.step, IoRef.step, IoRef.stepOpen, IoRef.stepClosed, IoRef.isReadline0, R, MemFile.seekLock, Bio.seek, Bio.seekSet,
-            Out.isErr, h]
+          simp [MemFile.step, MemFile.stepOpen, IoRef.step, IoRef.stepOpen, IoRef.isReadline0, R,
+            MemFile.seekLock, Bio.seek, Bio.seekSet, Out.isErr, h]
       | 1 =>
-        have h : ¬ ((p : Int) + off < 0) := by
-          intro hlt; simp [deviates, devClass] at hd; omega
-        simp [MemFile.step, IoRef.step, IoRef.stepOpen, IoRef.stepClosed, IoRef.isReadline0, R, MemFile.seekLock, Bio.seek, Bio.seekSet,
-          Out.isErr, h]
+        by_cases h : (p : Int) + off < 0 <;>
+          simp [MemFile.step, MemFile.stepOpen, IoRef.step, IoRef.stepOpen, IoRef.isReadline0, R,
+            MemFile.seekLock, Bio.seek, Bio.seekSet, Out.isErr, h]
       | 2 =>
-        have h : ¬ ((b.length : Int) + off < 0) := by
-          intro hlt; simp [deviates, devClass] at hd; omega
-        simp [MemFile.step, IoRef.step, IoRef.stepOpen, IoRef.stepClosed, IoRef.isReadline0, R, MemFile.seekLock, Bio.seek, Bio.seekSet,
-          Out.isErr, h]
+        by_cases h : (b.length : Int) + off < 0 <;>
+          simp [MemFile.step, MemFile.stepOpen, IoRef.step, IoRef.stepOpen, IoRef.isReadline0, R,
+            MemFile.seekLock, Bio.seek, Bio.seekSet, Bio.seekEnd, Out.isErr, h]
       | w + 3 =>
-        simp [MemFile.step, IoRef.step, IoRef.stepOpen, IoRef.stepClosed, IoRef.isReadline0, R, MemFile.seekLock, Bio.seek, Bio.seekSet,
-          Out.isErr]
+        simp [MemFile.step, MemFile.stepOpen, IoRef.step, IoRef.stepOpen, IoRef.isReadline0, R,
+          MemFile.seekLock, Bio.seek, Bio.seekSet, Out.isErr]
     | write d =>
       cases hw : fl.writing
-      · simp [MemFile.step, IoRef.step, IoRef.stepOpen, IoRef.stepClosed, IoRef.isReadline0, R, hw]
+      · simp [MemFile.step, MemFile.stepOpen, IoRef.step, IoRef.stepOpen, IoRef.isReadline0, R, hw]
       · cases ha : fl.appending
         · by_cases hde : d.isEmpty = true <;>
-            simp [MemFile.step, IoRef.step, IoRef.stepOpen, IoRef.stepClosed, IoRef.isReadline0, R, hw, ha, MemFile.seekLock, Bio.write,
-              Bio.seekSet, IoRef.write1, Out.isErr, hde]
+            simp [MemFile.step, MemFile.stepOpen, IoRef.step, IoRef.stepOpen, IoRef.isReadline0, R, hw, ha,
+              MemFile.seekLock, Bio.write, Bio.seekSet, IoRef.write1, Out.isErr, hde]
         · by_cases hde : d.isEmpty = true
           · have hp : p = b.length := by
               simp [deviates, devClass, hw, ha, hde] at hd; exact hd
             subst hp
-            simp [MemFile.step, IoRef.step, IoRef.stepOpen, IoRef.stepClosed, IoRef.isReadline0, R, hw, ha, MemFile.seekLock, Bio.write,
-              Bio.seekSet, Bio.seekEnd, IoRef.write1, Out.isErr, hde]
-          · simp [MemFile.step, IoRef.step, IoRef.stepOpen, IoRef.stepClosed, IoRef.isReadline0, R, hw, ha, MemFile.seekLock, Bio.write,
-              Bio.seekSet, Bio.seekEnd, IoRef.write1, Out.isErr, hde]
+            simp [MemFile.step, MemFile.stepOpen, IoRef.step, IoRef.stepOpen, IoRef.isReadline0, R, hw, ha,
+              MemFile.seekLock, Bio.write, Bio.seekSet, Bio.seekEnd, IoRef.write1, Out.isErr, hde]
+          · simp [MemFile.step, MemFile.stepOpen, IoRef.step, IoRef.stepOpen, IoRef.isReadline0, R, hw, ha,
+              MemFile.seekLock, Bio.write, Bio.seekSet, Bio.seekEnd, IoRef.write1, Out.isErr, hde]
     | writelines ls =>
       cases hw : fl.writing
       · have hne : ls.isEmpty = false := by
           cases h : ls.isEmpty <;> simp [deviates, devClass, hw, h] at hd ⊢
-        simp [MemFile.step, IoRef.step, IoRef.stepOpen, IoRef.stepClosed, IoRef.isReadline0, R, hw, hne]
+        simp [MemFile.step, MemFile.stepOpen, IoRef.step, IoRef.stepOpen, IoRef.isReadline0, R, hw, hne]
       · cases ha : fl.appending
         · have hf := foldl_write_plain fl ha ls b p false
           by_cases hne : ls.isEmpty = true
           · have : ls = [] := by simpa using hne
             subst this
-            simp [MemFile.step, IoRef.step, IoRef.stepOpen, IoRef.stepClosed, IoRef.isReadline0, R, hw, ha, MemFile.seekLock, Bio.seekSet, Out.isErr]
-          · simp [MemFile.step, IoRef.step, IoRef.stepOpen, IoRef.stepClosed, IoRef.isReadline0, R, hw, ha, hne, MemFile.seekLock, Bio.seekSet,
-              Out.isErr, hf]
+            simp [MemFile.step, MemFile.stepOpen, IoRef.step, IoRef.stepOpen, IoRef.isReadline0, R, hw, ha,
+              MemFile.seekLock, Bio.seekSet, Out.isErr]
+          · simp [MemFile.step, MemFile.stepOpen, IoRef.step, IoRef.stepOpen, IoRef.isReadline0, R, hw, ha,
+              hne, MemFile.seekLock, Bio.seekSet, Out.isErr, hf]
         · have hf := foldl_write_append fl ha ls b p false
           have hb := (foldl_write_at_end fl ls b false).2
           by_cases hall : ls.all (·.isEmpty) = true
@@ -327,44 +408,39 @@ theorem step_refines (fl : Flags) (m : MemState) (r : IoState) (op : Op)
             by_cases hne : ls.isEmpty = true
             · have : ls = [] := by simpa using hne
               subst this
-              simp [MemFile.step, IoRef.step, IoRef.stepOpen, IoRef.stepClosed, IoRef.isReadline0, R, hw, ha, MemFile.seekLock, Bio.seekSet,
-                Bio.seekEnd, Out.isErr]
-            · simp [MemFile.step, IoRef.step, IoRef.stepOpen, IoRef.stepClosed, IoRef.isReadline0, R, hw, ha, hne, MemFile.seekLock, Bio.seekSet,
-                Bio.seekEnd, Out.isErr, hbio, href]
+              simp [MemFile.step, MemFile.stepOpen, IoRef.step, IoRef.stepOpen, IoRef.isReadline0, R, hw, ha,
+                MemFile.seekLock, Bio.seekSet, Bio.seekEnd, Out.isErr]
+            · simp [MemFile.step, MemFile.stepOpen, IoRef.step, IoRef.stepOpen, IoRef.isReadline0, R, hw, ha,
+                hne, MemFile.seekLock, Bio.seekSet, Bio.seekEnd, Out.isErr, hbio, href]
           · have hne : ls.isEmpty = false := by
               cases h : ls.isEmpty
               · rfl
               · exfalso; apply hall; have : ls = [] := by simpa using h
                 subst this; rfl
             simp only [hall] at hf
-            simp [MemFile.step, IoRef.step, IoRef.stepOpen, IoRef.stepClosed, IoRef.isReadline0, R, hw, ha, hne, MemFile.seekLock, Bio.seekSet,
-              Bio.seekEnd, Out.isErr, hb, hf]
+            simp [MemFile.step, MemFile.stepOpen, IoRef.step, IoRef.stepOpen, IoRef.isReadline0, R, hw, ha,
+              hne, MemFile.seekLock, Bio.seekSet, Bio.seekEnd, Out.isErr, hb, hf]
     | truncate size =>
       cases hw : fl.writing
-      · simp [MemFile.step, IoRef.step, IoRef.stepOpen, IoRef.stepClosed, IoRef.isReadline0, R, hw]
+      · simp [MemFile.step, MemFile.stepOpen, IoRef.step, IoRef.stepOpen, IoRef.isReadline0, R, hw]
       · cases size with
         | none =>
-          have hp : p ≤ b.length := by
-            simp [deviates, devClass] at hd; omega
-          simp [MemFile.step, IoRef.step, IoRef.stepOpen, IoRef.stepClosed, IoRef.isReadline0, R, hw, MemFile.seekLock, Bio.truncate,
-            Bio.seekSet, Out.isErr, resize_le b p hp]
+          have hb := truncate_body b p p
+          have hp0 : ¬ ((p : Int) < 0) := by omega
+          simp only [Bio.seekSet] at hb
+          simp [MemFile.step, MemFile.stepOpen, IoRef.step, IoRef.stepOpen, IoRef.isReadline0, R, hw,
+            MemFile.seekLock, Bio.truncate, Bio.seekSet, Out.isErr, hp0]
+          exact ⟨hb.1, by cases p <;> rfl⟩
         | some z =>
           by_cases hz : z < 0
-          · simp [MemFile.step, IoRef.step, IoRef.stepOpen, IoRef.stepClosed, IoRef.isReadline0, R, hw, MemFile.seekLock, Bio.truncate,
-              Bio.seekSet, Out.isErr, hz]
-          · by_cases hlen : b.length < z.toNat
-            · have hle : b.length ≤ z.toNat := by omega
-              have htake : List.take z.toNat b = b := List.take_of_length_le hle
-              have hpos : 0 < z.toNat - b.length := by omega
-              have hnz : ¬ z.toNat = 0 := by omega
-              simp [MemFile.step, IoRef.step, IoRef.stepOpen, IoRef.stepClosed, IoRef.isReadline0, R, hw, MemFile.seekLock, Bio.truncate,
-                Bio.seekSet, Bio.seekEnd, Bio.write, Out.isErr, hz, htake, hlen, zeros_isEmpty,
-                writeAt_end, resize_ge b z.toNat hle, hnz]
-              have hne : ¬ (z.toNat - b.length = 0) := by omega
-              simp [hne]
-            · have hle : z.toNat ≤ b.length := by omega
-              have hl2 : (List.take z.toNat b).length = z.toNat := by simp; omega
-              simp [MemFile.step, IoRef.step, IoRef.stepOpen, IoRef.stepClosed, IoRef.isReadline0, R, hw, MemFile.seekLock, Bio.truncate,
-                Bio.seekSet, Bio.seekEnd, Out.isErr, hz, resize_le b z.toNat hle, hl2]
+          · simp [MemFile.step, MemFile.stepOpen, IoRef.step, IoRef.stepOpen, IoRef.isReadline0, R, hw,
+              MemFile.seekLock, Bio.truncate, Bio.seekSet, Out.isErr, hz]
+          · have hb := truncate_body b p z.toNat
+            simp only [Bio.seekSet] at hb
+            simp [MemFile.step, MemFile.stepOpen, IoRef.step, IoRef.stepOpen, IoRef.isReadline0, R, hw,
+              MemFile.seekLock, Bio.truncate, Bio.seekSet, Out.isErr, hz]
+            have hiff : ∀ n : Nat, ((n : Int) < z) ↔ n < z.toNat := by intro n; omega
+            simp only [hiff]
+            exact hb.1
 
 end Fs.FileLemmas
